@@ -2,3 +2,4 @@ pub mod earley;
 pub mod lr1;
 pub mod trees;
 pub mod prec;
+pub mod lexmodel;
